@@ -37,6 +37,8 @@ def scenarios(rep, tier, seed, pid_salt=13, nq=0):
         scn = K.random_scenario(rng, kind, metric=rng.choice(mets), lattice=(i % 3 == 0), dup=(i % 5 == 0), nq=nq)
         if not K.materialise(scn):
             continue
+        if i % 7 == 3:
+            scn["label_offset"] = 1 + i % 2          # class labels that do not start at 0
         scns.append(scn)
     # non-symmetric identifiers: a sample's neighbours are the samples nearest FROM it, d(sample, other) - the direction matters
     rng2 = random.Random(seed * 1000003 + 1313)
